@@ -35,6 +35,42 @@ def file_list(h: histsim.History, mode: str) -> list[str]:
     return out
 
 
+ONCE_MARKERS = ("#missing-imports", "(Using --follow-imports=error, module not passed on command line)", "#incompatible-overrides")
+
+
+def _strip(o: dict[str, Any], pred: Any) -> dict[str, Any]:
+    pf = {}
+    for f, lines in o["per_file"].items():
+        keep = [l for l in lines if not pred(l)]
+        if keep:
+            pf[f] = keep
+    return dict(o, per_file=pf)
+
+
+def classify_soft(og: dict[str, Any], oo: dict[str, Any]) -> str | None:
+    """Known systematic daemon/fresh differences, each tied to one mechanism (see known_findings.json).
+    Returns the class when the two answers become equal after removing exactly that class of lines."""
+    if og["crash"] or oo["crash"] or og["err"] != oo["err"] or og.get("error") != oo.get("error"):
+        return None
+    steps = [
+        ("only_once_note", lambda l: ": note: " in l and any(m in l for m in ONCE_MARKERS)),
+        ("used_before_def_not_recomputed", lambda l: l.rstrip().endswith("[used-before-def]")),
+    ]
+    a, b = og, oo
+    applied = []
+    for name, pred in steps:
+        a2, b2 = _strip(a, pred), _strip(b, pred)
+        if a2["per_file"] != a["per_file"] or b2["per_file"] != b["per_file"]:
+            applied.append(name)
+        a, b = a2, b2
+        status_ok = a["status"] == b["status"] or ({a["status"], b["status"]} <= {0, 1} and "used_before_def_not_recomputed" in applied)
+        if a["per_file"] == b["per_file"] and status_ok and applied:
+            return "+".join(applied)
+    if {f: sorted(v) for f, v in a["per_file"].items()} == {f: sorted(v) for f, v in b["per_file"].items()} and a["status"] == b["status"]:
+        return "+".join(applied + ["order_within_file"])
+    return None
+
+
 def evaluate(scn: dict[str, Any], tag: str) -> dict[str, Any]:
     mode = scn["mode"]
     flags = list(scn.get("flags") or [])
@@ -47,6 +83,18 @@ def evaluate(scn: dict[str, Any], tag: str) -> dict[str, Any]:
     try:
         steps: list[dict[str, Any]] = []
         oracle: list[dict[str, Any]] = []
+        if scn.get("prelude"):
+            # "In caching mode we currently don't well support starting from cached states with errors
+            # in them" (mypy/test/testfinegrained.py): stay inside the supported envelope
+            hp = histsim.History({"files": scn["prelude"]["files"], "argv": [], "config": scn["config"], "steps": []}, f"c03-{os.getpid()}-{tag}p")
+            try:
+                pf = [a for a in scn["prelude"]["argv"] if a.endswith((".py", ".pyi"))]
+                pre = kit.fork_call(daemonsim.fresh_child, hp.world.proj, hp.world.lib, flags, {"files": pf}, timeout=120)
+            finally:
+                hp.close()
+            if isinstance(pre, kit.ChildDied) or pre.get("out", "").strip() or pre.get("status") != 0:
+                info["skipped"] = "cached state has diagnostics (documented unsupported for the fine-grained cache)"
+                return {"violation": None, "info": info, "sim_time_s": 0.0}
         cur = file_list(h, mode)
         files, mt = h.world.snapshot_files()
         req: dict[str, Any] = {"cmd": "check", "files": cur}
@@ -103,6 +151,11 @@ def evaluate(scn: dict[str, Any], tag: str) -> dict[str, Any]:
             og["other"] = [l for l in og["other"] if not l.startswith(("Found ", "Success: "))]
             oo["other"] = [l for l in oo["other"] if not l.startswith(("Found ", "Success: "))]
             if og != oo:
+                soft = classify_soft(og, oo)
+                if soft is not None:
+                    info.setdefault("soft", {})
+                    info["soft"][soft] = info["soft"].get(soft, 0) + 1
+                    continue
                 d: dict[str, Any] = {"step": i, "request": {k: v for k, v in s["request"].items()}, "changed": s["changed"]}
                 if og["status"] != oo["status"] and og["per_file"] == oo["per_file"] and og["err"] == oo["err"]:
                     violation = {"kind": "status_differs_only", "daemon": og["status"], "fresh": oo["status"], **d}
@@ -151,7 +204,7 @@ def fg_cases() -> list[dict[str, Any]]:
     return _fg_cases
 
 
-TRANSFORMS = ["forward", "revert_first", "revert_prev", "skip_step", "one_file_at_a_time", "touch_noise"]
+TRANSFORMS = ["forward", "revert_first", "revert_prev", "skip_step", "one_file_at_a_time", "touch_noise", "from_cache"]
 
 
 def gen_corpus(k: int, tier: str) -> dict[str, Any] | None:
@@ -162,54 +215,32 @@ def gen_corpus(k: int, tier: str) -> dict[str, Any] | None:
     tr = TRANSFORMS[(k // max(1, len(cases))) % len(TRANSFORMS)] if tier == "thorough" else rng.choice(TRANSFORMS)
     flags = corpus.step_flags(c, 0)
     files0 = dict(c["steps"][0])
-    deltas = [dict(d) for d in c["steps"][1:]]
-    trees = [dict(files0)]
-    for d in deltas:
-        t = dict(trees[-1])
-        for p, txt in d.items():
-            if txt is None:
-                t.pop(p, None)
-            else:
-                t[p] = txt
-        trees.append(t)
-    seq = list(range(len(trees)))
-    if tr == "revert_first":
-        seq = seq + [0]
-    elif tr == "revert_prev":
-        seq = seq + [max(0, len(trees) - 2), len(trees) - 1]
-    elif tr == "skip_step" and len(trees) > 2:
-        drop = rng.randrange(1, len(trees) - 1)
-        seq = [i for i in seq if i != drop]
-
-    def delta(a: dict[str, str], b: dict[str, str]) -> list[dict[str, Any]]:
-        ops: list[dict[str, Any]] = []
-        for p in sorted(set(a) - set(b)):
-            ops.append({"e": "delete", "path": p})
-        for p in sorted(b):
-            if a.get(p) != b[p]:
-                ops.append({"e": "write", "path": p, "text": b[p]})
-        return ops
-
-    steps = []
-    prev = trees[seq[0]]
-    for i in seq[1:]:
-        ops = delta(prev, trees[i])
-        if tr == "one_file_at_a_time" and len(ops) > 1:
-            for op in ops:
-                steps.append({"edits": [op], "gap_s": 2.0, "run": True})
-        else:
-            if tr == "touch_noise" and prev:
-                ops = ops + [{"e": "touch", "path": rng.choice(sorted(prev))}]
-            steps.append({"edits": ops, "gap_s": 2.0, "run": True})
-        prev = trees[i]
+    prelude_files = None
+    if tr == "from_cache":
+        trees = corpus.trees_of(c)
+        prelude_files = trees[0]
+        start = trees[1]
+        steps = [{"edits": corpus.delta(trees[i], trees[i + 1]), "gap_s": 2.0, "run": True} for i in range(1, len(trees) - 1)]
+    else:
+        start, steps = corpus.transform_history(c, tr, rng)
     argv = [a for a in corpus.step_argv(c, 0) if not a.startswith("-")]
     if argv == ["main.py"] and not c.get("follow"):
         # the suite passes every module of the case as a source in non-following mode
         argv = sorted(p for p in files0 if p.endswith((".py", ".pyi")) and p not in ("builtins.pyi", "typing.pyi", "_typeshed.pyi"))
     mode = "normal" if c.get("follow") else "error"
     fl = [f for f in flags if not f.startswith("--follow-imports")]
-    return {"files": trees[seq[0]], "argv": argv, "config": histsim.STORE_CONFIGS[0], "steps": steps, "mode": mode, "flags": fl,
-            "case": c["file"] + "::" + c["name"], "transform": tr, "dynamic_argv": not c.get("follow")}
+    if not c["name"].endswith("_no_empty"):
+        fl.append("--allow-empty-bodies")  # what the suite sets for these cases (testfinegrained.py)
+    scn = {"files": start, "argv": argv, "config": histsim.STORE_CONFIGS[0], "steps": steps, "mode": mode, "flags": fl,
+           "case": c["file"] + "::" + c["name"], "transform": tr, "dynamic_argv": not c.get("follow")}
+    if prelude_files is not None:
+        t0 = 999_999_900.0
+        pargv = [p for p in argv if p in prelude_files] or ["main.py"]
+        scn["prelude"] = {"files": prelude_files, "mt": {p: t0 for p in prelude_files},
+                          "argv": pargv + ["--cache-fine-grained", "--cache-dir", ".fgcache"] + fl + ([] if mode == "normal" else [f"--follow-imports={mode}"])}
+        scn["flags"] = fl + ["--use-fine-grained-cache", "--cache-dir", ".fgcache"]
+        scn["argv"] = [p for p in argv if p in start] or argv
+    return scn
 
 
 def task(item: tuple[str, int, str]) -> dict[str, Any]:
@@ -234,7 +265,7 @@ def task(item: tuple[str, int, str]) -> dict[str, Any]:
         "evaluations": info["steps"],
         "sim_time_s": r["sim_time_s"],
         "faults": {"mode_" + scn["mode"]: 1, "family_" + fam: 1, **({"transform_" + scn["transform"]: 1} if fam == "corpus" else {"clock_" + str(scn.get("clock_mode")): 1})},
-        "probes": {"increments_checked": info["increments"], "increments_after_real_change": info["nontrivial_steps"]},
+        "probes": dict({"from_cache_skipped_cached_errors": 1 if info.get("skipped") else 0, "increments_checked": info["increments"], "increments_after_real_change": info["nontrivial_steps"]}, **{"soft_" + k_: v_ for k_, v_ in (info.get("soft") or {}).items()}),
         "nontrivial": [kit.digest([scn.get("case"), scn.get("transform"), scn.get("project"), scn["steps"], scn["mode"]])] if info["nontrivial_steps"] else [],
         "interleavings": [],
     }
